@@ -39,6 +39,20 @@ class FakeTimeMod:
 
     def strptime(self, s, fmt):
         if type(s) is SymStr:
+            # the two stdlib-only formats (ctime, Unix date) need at least 4 blanks and 2 colons
+            def could_be(c, ch):
+                if not isinstance(c, SymInt):
+                    return c == ch
+                lo, hi = core.ENG.interval(c.lin, c.c)
+                return lo is None or hi is None or lo <= ord(ch) <= hi
+            if fmt.count(" ") >= 4 and sum(1 for c in s.els if could_be(c, " ")) < 4:
+                raise ValueError("time data does not match format")
+            import re as _re
+            if not _re.search(r"%[aAbBpZcxX]", fmt):
+                # numeric directives only: the text may contain nothing but digits and the format's own literals
+                lits = set(_re.sub(r"%.", "", fmt))
+                if any((not isinstance(c, SymInt)) and not c.isdigit() and c not in lits for c in s.els):
+                    raise ValueError("time data does not match format")
             if any((not isinstance(c, SymInt)) and c.isalpha() and c not in "TZW" for c in s.els):
                 raise core.Unsupported("stdlib strptime fallback on a symbolic string with letters")
             raise ValueError("time data does not match format")
